@@ -17,6 +17,7 @@ import SA.Driver.OpsC13
 import SA.Driver.OpsC14
 import SA.Driver.OpsC15
 import SA.Driver.OpsC16
+import SA.Driver.OpsC16Fwb
 import SA.Driver.OpsC17
 import SA.Driver.OpsC18
 import SA.Driver.OpsC19
@@ -25,7 +26,7 @@ import SA.Driver.OpsC20
 open SA SA.Wire
 
 def allOps : List (String × (Args → Except String String)) :=
-  SA.Ops.opsC01 ++ SA.Ops.opsC02 ++ SA.Ops.opsC04 ++ SA.Ops.opsC05 ++ SA.Ops.opsC06 ++ SA.Ops.opsC07 ++ SA.Ops.opsC08 ++ SA.Ops.opsC10 ++ SA.Ops.opsC11 ++ SA.Ops.opsC12 ++ SA.Ops.opsC13 ++ SA.Ops.opsC14 ++ SA.Ops.opsC15 ++ SA.Ops.opsC16 ++ SA.Ops.opsC17 ++ SA.Ops.opsC18 ++ SA.Ops.opsC19 ++ SA.Ops.opsC20
+  SA.Ops.opsC01 ++ SA.Ops.opsC02 ++ SA.Ops.opsC04 ++ SA.Ops.opsC05 ++ SA.Ops.opsC06 ++ SA.Ops.opsC07 ++ SA.Ops.opsC08 ++ SA.Ops.opsC10 ++ SA.Ops.opsC11 ++ SA.Ops.opsC12 ++ SA.Ops.opsC13 ++ SA.Ops.opsC14 ++ SA.Ops.opsC15 ++ SA.Ops.opsC16 ++ SA.Ops.opsC16Fwb ++ SA.Ops.opsC17 ++ SA.Ops.opsC18 ++ SA.Ops.opsC19 ++ SA.Ops.opsC20
 
 def step (line : String) : String :=
   let (op, args) := parseLine line
